@@ -79,12 +79,31 @@ func genMetricsRequest(t *rapid.T, mode string) genReq {
 	}
 }
 
-func methodLabel(m string) string {
-	switch m {
-	case "GET", "PUT", "HEAD", "POST", "DELETE", "CONNECT", "OPTIONS", "NOTIFY", "TRACE", "PATCH":
-		return strings.ToLower(m)
+func foldOddMethods(m map[string]float64) map[string]float64 {
+	out := map[string]float64{}
+	for k, v := range m {
+		i := strings.Index(k, "/")
+		meth, code := k[:i], k[i:]
+		switch meth {
+		case "get", "put", "head", "post", "delete", "connect", "options", "notify", "trace", "patch":
+		default:
+			meth = "other"
+		}
+		out[meth+code] += v
 	}
-	return "unknown"
+	return out
+}
+
+// methodLabel mirrors the documented labelling of the Prometheus HTTP middleware: the standard methods, written
+// all upper-case or all lower-case, are labelled in lower case; anything else is "unknown".
+func methodLabel(m string) string {
+	switch strings.ToUpper(m) {
+	case "GET", "PUT", "HEAD", "POST", "DELETE", "CONNECT", "OPTIONS", "NOTIFY", "TRACE", "PATCH":
+		if m == strings.ToUpper(m) || m == strings.ToLower(m) {
+			return strings.ToLower(m)
+		}
+	}
+	return "other"
 }
 
 func runC20(c c20Case) Result {
@@ -131,9 +150,12 @@ func runC20(c c20Case) Result {
 			if sig, msg := monotone(last); sig != "" {
 				return sig, msg
 			}
-			same := len(last.Totals) == len(tally)
+			// methods outside the standard set are compared by status code only (how they are labelled is the
+			// middleware's business): both sides fold them into "other"
+			got := foldOddMethods(last.Totals)
+			same := len(got) == len(tally)
 			for k, v := range tally {
-				if last.Totals[k] != v {
+				if got[k] != v {
 					same = false
 				}
 			}
@@ -154,7 +176,7 @@ func runC20(c c20Case) Result {
 		case last.InFlight != 0:
 			return "metrics:in-flight-not-zero", fmt.Sprintf("all %d responses received but http_requests_in_flight reads %g", len(tally), last.InFlight)
 		}
-		return "metrics:totals-differ", fmt.Sprintf("responses sent: %s; endpoint reports: %s", fmtTally(tally), fmtTally(last.Totals))
+		return "metrics:totals-differ", fmt.Sprintf("responses sent: %s; endpoint reports: %s", fmtTally(tally), fmtTally(foldOddMethods(last.Totals)))
 	}
 
 	tags := []string{}
